@@ -5,7 +5,10 @@ mod example;
 
 use std::io::prelude::*;
 use std::borrow::Borrow;
+#[cfg(not(rws_verif))]
 use std::net::{IpAddr, SocketAddr, TcpListener};
+#[cfg(rws_verif)]
+use crate::verif::net::{IpAddr, SocketAddr, TcpListener};
 use std::str::FromStr;
 
 use crate::request::{METHOD, Request};
@@ -152,6 +155,8 @@ impl Server {
 
 
         let request: Request = boxed_request.unwrap();
+        #[cfg(rws_verif)]
+        crate::verif::yield_point("process.after_parse");
 
         let app_processing = app.execute(&request, &connection);
         if app_processing.is_err() {
@@ -167,6 +172,8 @@ impl Server {
             };
         }
         let response = app_processing.unwrap();
+        #[cfg(rws_verif)]
+        crate::verif::yield_point("process.after_execute");
 
 
         let client = connection.client;
